@@ -1,14 +1,15 @@
 """C19 -- MD3 follows its warn / ask-the-oracle / confirm protocol."""
 from .common import A_COMMON
 Q = "menelaus.concept_drift.md3:MD3"
-TARGETS = [("fn", Q + ".update"), ("fn", Q + ".give_oracle_label"), ("fn", Q + ".set_reference"), ("fn", Q + ".reset")]
+TARGETS = [("fn", Q + ".update"), ("fn", Q + ".give_oracle_label"), ("fn", Q + ".set_reference"), ("fn", Q + ".reset"),
+           ("fn", Q + ".calculate_distribution_statistics")]
 LEVEL = "exploration"
 LEVEL_TEXT = ('Bounded: real MD3 (deterministic stub classifier, user margin function) against a plain-Python protocol state machine on all interleavings of legal and illegal calls up to a bounded length, reference statistics against an independent k-fold computation. '
               'Deductive (counted separately): the protocol skeleton of MD3.update / give_oracle_label / set_reference / reset is proved against contracts over '
               'opaque pandas / sklearn values: update raises exactly when waiting for the oracle or the input is not one row and then changes nothing; the margin density is the '
               'exponentially forgotten value (restarted from the reference after a drift); warning <=> |md - ref.md| > sensitivity*ref.md_std <=> waiting_for_oracle; '
               'give_oracle_label raises exactly when not waiting / not one row / columns differ, collects until exactly oracle_data_length_required samples, then decides drift by '
-              'ref.acc - acc > sensitivity*ref.acc_std, adopts the samples as the new reference and stops waiting. calculate_distribution_statistics (k-fold) is an assumed contract; '
+              'ref.acc - acc > sensitivity*ref.acc_std, adopts the samples as the new reference and stops waiting. calculate_distribution_statistics is verified with its k-fold loop abstracted (the loop body is not verified: the record it returns has len == len(data) and non-negative deviations, whatever the folds give); '
               'classifier, margin function, accuracy_score are deterministic uninterpreted functions. Claimed as exploration because the k-fold statistics are bounded only.')
 ASSUMPTIONS = A_COMMON + [
     "A-OPAQUE-PANDAS: DataFrames are opaque values characterised by row count and column objects; .loc / [] / concat / to_numpy are uninterpreted functions with row-count axioms; copy.deepcopy of them is the identity (aliasing of DataFrames not modelled)",
